@@ -81,20 +81,25 @@ def run(ctx: Ctx):
     q = ctx.quick
     ctx.rule = ("case = (map of 1-5 rules with pairwise distinct literal first segment per domain part, built from literals that need quoting, "
                 "all converter kinds with their options, prefix/suffix literals around a variable, defaults pairs, groups of three rules of one endpoint "
-                "sharing two arguments with 2 / 1 / 0 defaults in all six declaration orders (each argument absent / default / other), Submount / Subdomain factories, "
+                "sharing two arguments with 2 / 1 / 0 defaults in all six declaration orders (each argument absent / default / other), "
+                "growth cases (variables in the subdomain / host part incl. host:<int:port> and two variables in one domain part, bound on and off the target domain; "
+                "2-3 variables in one path segment with literal separators; int / float min / max, string maxlength, dotted and double-slash path values; "
+                "sort_parameters / sort_key, append_unknown=False, list and None extras), Submount / Subdomain factories, "
                 "subdomain or host matching; binding with script root / subdomain / scheme; endpoint, values in the converters' domains, extra "
                 "query values, force_external); executed as build -> deliver -> match (same adapter and bind_to_environ) -> Request.args -> rebuild, "
                 "then match / build / rematch on mutated neighbours of the delivered path; plus TLC-exported model cases and a code point sweep; "
                 "non-trivial = distinct built URL that needs percent-coding, carries a query, is external, or comes from a map with defaults")
     ctx.assumptions += [
         "Deliver: relative URLs are requested from the adapter's own host; the server strips the script root, percent-decodes the path as UTF-8 and passes the query apart",
-        "at most one variable per path segment (literal prefix / suffix allowed); several variables in one segment are inherently ambiguous and not generated",
         "floats travel as repr() text; only floats with <= 15 significant digits in positional notation are judged",
         "rules with defaults follow the documented patterns: a short rule carrying the default of the long rule's last variable, defaults outside the URL, or a "
         "chain of rules of one endpoint whose default sets are nested (2 / 1 / 0 defaults); sibling rules with equally many defaults on different arguments are not generated",
-        "methods, alias, websocket, redirect_to, build_only, sort_parameters and converters with min/max are not part of the check",
+        "methods, alias, websocket, redirect_to and build_only are not part of the check",
+        "domain-part variables are judged for values a client preserves: lower-case letters / digits / hyphens in dot-separated labels, ints other than the scheme's default port",
+        "several variables in one segment are judged where no value (as spelled in the path) contains a literal character of the segment and adjacent variables are separated by a literal",
+        "float min / max are judged for values with at most 6 integer and 3 fraction digits; under sort_parameters the extras are compared as a multiset (exact order is drift)",
     ]
-    for cfg in (("MCBuild_q", "MCBuild_qd") if q else ("MCBuild_q", "MCBuild_qd", "MCBuild_t1", "MCBuild_t2", "MCBuild_t3")):
+    for cfg in (("MCBuild_q", "MCBuild_qd", "MCBuild_qg") if q else ("MCBuild_q", "MCBuild_qd", "MCBuild_qg", "MCBuild_t1", "MCBuild_t2", "MCBuild_t3", "MCBuild_t4")):
         ctx.model_check(AREA, "MCBuild", cfg, timeout=3000)
     ctx.exhaustive = True
     for cfg, name in (("MCBuild_orig_path", "pre_fix_path_model_violates"), ("MCBuild_orig_any", "pre_fix_any_model_violates"),
@@ -103,7 +108,7 @@ def run(ctx: Ctx):
         ctx.notes[name] = r.invariant_violated
         if not r.invariant_violated:
             raise tlc.MachineryError(f"{cfg}: the pre-fix model no longer violates the laws (vacuity)")
-    exported = [v for cfg in (("MCBuild_x" if q else "MCBuild_xt"), "MCBuild_xd")
+    exported = [v for cfg in (("MCBuild_x" if q else "MCBuild_xt"), "MCBuild_xd", "MCBuild_xg")
                 for v in ctx.export(AREA, "MCBuild", cfg, count_states=False, timeout=3000) if isinstance(v, dict) and "map" in v]
     ctx.notes["model_cases_exported"] = len(exported)
     if len(exported) < 100:
@@ -115,7 +120,7 @@ def run(ctx: Ctx):
         c["npaths"], c["pseed"] = (1 if q else 3), ctx.seed
         jobs.append(("model", c))
     jobs += [("sweep", c) for c in sweep_cases(BOUNDARY_POINTS if q else sorted(set(BOUNDARY_POINTS) | set(range(0, 0x800, 1)) | set(range(0x800, 0x11000, 97))))]
-    n = 2000 if q else 30000
+    n = 1800 if q else 30000
     jobs += [("rand", ctx.seed * 1000003 + i) for i in range(n)]
     results = pmap(_run, jobs, workers=ctx.workers, chunksize=32)
     _judge(ctx, jobs, results)
